@@ -253,4 +253,24 @@ theorem C02_gen_resolver_cases :
     genCases.all (fun c => match genResolve c.1 c.2.1 c.2.2.1 with | .ok s => s == c.2.2.2 | .error _ => false) = true ∧
     genCases.all (fun c => modelResolve c.1 c.2.1 c.2.2.1 == some (c.2.2.2, false)) = true := by decide +kernel
 
+/-- **the link budget is the kernel's** — the constant: the resolver's `maxSymlinkDepth` (read from the source on
+every run) is 40, the number of links the kernel follows in one lookup (MAXSYMLINKS) — and the comparison: with
+the budget set to `b` = 2, 3, 4 in the regenerated resolveTraceePath and in the hand model alike, a lookup that
+needs up to exactly `b` link expansions is resolved to its real target by both, and with `b+1`, `b+2` links both
+report the cap, at the same place.  (An off-by-one presents the b-th link itself while the kernel opens what it
+points to; the unbounded statement for the hand model is `C02_capped_means_no_resolution` / `C02_resolve_complete`.) -/
+theorem C02_gen_link_budget :
+    Gen.C02.maxSymlinkDepth = 40 ∧
+    [2, 3, 4].all (fun b =>
+      [b - 1, b].all (fun n =>
+        (match genResolveB b (chainWorld n) "/w" "cx" with | .ok s => s == "/a/t" | .error _ => false) &&
+        modelResolveB b (chainWorld n) "/w" "cx" == some ("/a/t", false)) &&
+      [b + 1, b + 2].all (fun n =>
+        match genResolveB b (chainWorld n) "/w" "cx", modelResolveB b (chainWorld n) "/w" "cx" with
+        | .ok s, some (m, capped) => capped && s == m && s != "/a/t"
+        | _, _ => false)) = true := by
+  constructor
+  · decide
+  · decide +kernel
+
 end GoSandbox.Props.C02
